@@ -7,6 +7,7 @@ CONSTANTS
   MaxTests = 2
   MaxTags = 2
   MaxTime = 1
+  MaxRuns = 1
 VIEW ViewNoHist
 CONSTRAINT FirstIsT1
 INVARIANT WireWellFormed
